@@ -31,6 +31,12 @@
 (* every documented malformation yields its documented class.                    *)
 (*                                                                               *)
 (* Text is a sequence of Unicode code points (the compiler works on []rune).     *)
+(*                                                                               *)
+(* The parse model and the error bounds are parameterised by the FUNCTION TABLE  *)
+(* of the key builder (registered name -> version of the implementation); the    *)
+(* un-suffixed operators use the table every fresh test key builder starts with  *)
+(* (BaseFt).  ExprSyntaxHist.tla puts the compiler into a state machine whose    *)
+(* table changes (KeyBuilder.Func) between Compile calls.                        *)
 EXTENDS Bytes, TLC
 
 BSL == 92     \* backslash
@@ -45,6 +51,9 @@ IsSpaceU(c) ==
 
 \* registered (transparent) functions of the test key builder: f g h1 and a non-ASCII name
 Funcs == {<<102>>, <<103>>, <<104, 49>>, <<955, 120>>}
+\* a function table maps every registered name to the version of its implementation; version 0 is the
+\* standard transparent function, version v > 0 a second transparent implementation that also writes FV v
+BaseFt == [f \in Funcs |-> 0]
 
 \* ------------------------------------------------------------------ nodes
 \* One record shape for every node (TLC compares records field by field).
@@ -53,6 +62,7 @@ LitN(s)        == N("lit", s, 0, <<>>)
 GrpN(n)        == N("grp", <<>>, n, <<>>)
 KeyN(s)        == N("key", s, 0, <<>>)
 CallN(f, args) == N("call", f, 0, args)
+CallV(f, v, args) == N("call", f, v, args)     \* a call bound to version v of f
 CatN(parts)    == N("cat", <<>>, 0, parts)     \* an argument compiled to several stages (joinStages)
 BigN(s)        == N("big", s, 0, <<>>)         \* an integer beyond the 9 digits this model computes with
 EmptyN         == N("empty", <<>>, 0, <<>>)    \* malformation: a statement without content
@@ -71,6 +81,7 @@ GO == 57349
 GC == 57350
 KO == 57351
 KC == 57352
+FV == 57353
 IsMarker(c) == c >= 57344 /\ c <= 57599
 
 RECURSIVE SpellN(_)
@@ -80,7 +91,8 @@ SpellN(x) ==
   CASE x.k = "lit"  -> x.s
     [] x.k = "grp"  -> <<GO>> \o Itoa(x.n) \o <<GC>>
     [] x.k = "key"  -> <<KO>> \o x.s \o <<KC>>
-    [] x.k = "call" -> <<FO>> \o x.s \o <<FA>> \o SpellArgs(x.args, 1) \o <<FC>>
+    [] x.k = "call" -> <<FO>> \o x.s \o (IF x.n = 0 THEN <<>> ELSE <<FV>> \o Itoa(x.n)) \o <<FA>>
+                       \o SpellArgs(x.args, 1) \o <<FC>>
     [] x.k = "cat"  -> SpellSeq(x.args, 1)
     [] OTHER        -> <<>>
 SpellArgs(args, j) ==
@@ -108,7 +120,7 @@ MergeL(st, j, acc) ==
 RECURSIVE NormNode(_)
 RECURSIVE NormArg(_)
 NormNode(x) ==
-  IF x.k = "call" THEN CallN(x.s, [j \in 1..Len(x.args) |-> NormArg(x.args[j])]) ELSE x
+  IF x.k = "call" THEN CallV(x.s, x.n, [j \in 1..Len(x.args) |-> NormArg(x.args[j])]) ELSE x
 NormArg(x) ==
   LET parts == IF x.k = "cat" THEN x.args ELSE <<x>> IN
   JoinM(MergeL([j \in 1..Len(parts) |-> NormNode(parts[j])], 1, <<>>))
@@ -204,19 +216,29 @@ RECURSIVE CountDrop(_)
 CountDrop(a) ==
   (IF a.k \notin {"lit", "qt"} /\ a.drop THEN 1 ELSE 0)
   + FoldLeft(LAMBDA acc, x : acc + CountDrop(x), 0, a.args)
-RECURSIVE ErrFull(_)
+\* F is the set of registered function names
+RECURSIVE ErrFullF(_, _)
 \* every class somebody could justify for this node
-ErrFull(a) ==
+ErrFullF(a, F) ==
   (IF a.k \notin {"lit", "qt"} /\ a.drop THEN {"unterminated"} ELSE {})
   \cup (IF a.k = "empty" THEN {"empty"} ELSE {})
-  \cup (IF a.k = "call" /\ a.s \notin Funcs THEN {"unknownFunc"} ELSE {})
-  \cup UNION {ErrFull(a.args[j]) : j \in 1..Len(a.args)}
-RECURSIVE ErrSure(_)
+  \cup (IF a.k = "call" /\ a.s \notin F THEN {"unknownFunc"} ELSE {})
+  \cup UNION {ErrFullF(a.args[j], F) : j \in 1..Len(a.args)}
+RECURSIVE ErrSureF(_, _)
 \* the classes that must be reported (arguments of an unknown function need not be looked at)
-ErrSure(a) ==
+ErrSureF(a, F) ==
   IF a.k = "empty" THEN {"empty"}
-  ELSE IF a.k = "call" /\ a.s \notin Funcs THEN {"unknownFunc"}
-  ELSE UNION {ErrSure(a.args[j]) : j \in 1..Len(a.args)}
+  ELSE IF a.k = "call" /\ a.s \notin F THEN {"unknownFunc"}
+  ELSE UNION {ErrSureF(a.args[j], F) : j \in 1..Len(a.args)}
+RECURSIVE SureCnt(_, _, _)
+\* ... and how many statements of class c must be reported: EVERY empty statement and every call of an
+\* unregistered function is an error of its own, also when the same text occurs twice
+SureCnt(a, F, c) ==
+  IF a.k = "empty" THEN (IF c = "empty" THEN 1 ELSE 0)
+  ELSE IF a.k = "call" /\ a.s \notin F THEN (IF c = "unknownFunc" THEN 1 ELSE 0)
+  ELSE FoldLeft(LAMBDA acc, x : acc + SureCnt(x, F, c), 0, a.args)
+ErrFull(a) == ErrFullF(a, Funcs)
+ErrSure(a) == ErrSureF(a, Funcs)
 
 DropsIn(tpl) == FoldLeft(LAMBDA acc, x : acc + CountDrop(x), 0, tpl)
 FirstDrop(tpl) == MinOf({j \in 1..Len(tpl) : CountDrop(tpl[j]) > 0})
@@ -229,12 +251,25 @@ WFTpl(tpl) ==
   /\ \A j \in 1..Len(tpl) : WFTop(tpl[j])
   /\ DropsIn(tpl) > 0 => \A j \in (FirstDrop(tpl) + 1)..Len(tpl) : ~RawClose(tpl[j])
 
-Mutated(tpl) == DropsIn(tpl) > 0 \/ UNION {ErrFull(tpl[j]) : j \in 1..Len(tpl)} # {}
-ErrUpper(tpl) == UNION {ErrFull(tpl[j]) : j \in 1..Len(tpl)}
-ErrLower(tpl) ==
+ErrClasses == {"unterminated", "empty", "unknownFunc"}
+ErrUpperF(tpl, F) == UNION {ErrFullF(tpl[j], F) : j \in 1..Len(tpl)}
+ErrLowerF(tpl, F) ==
   IF DropsIn(tpl) > 0
-  THEN {"unterminated"} \cup UNION {ErrSure(tpl[j]) : j \in 1..(FirstDrop(tpl) - 1)}
-  ELSE UNION {ErrSure(tpl[j]) : j \in 1..Len(tpl)}
+  THEN {"unterminated"} \cup UNION {ErrSureF(tpl[j], F) : j \in 1..(FirstDrop(tpl) - 1)}
+  ELSE UNION {ErrSureF(tpl[j], F) : j \in 1..Len(tpl)}
+\* the number of errors of class c that must be reported at least
+ErrLowCntF(tpl, F, c) ==
+  IF DropsIn(tpl) > 0
+  THEN (IF c = "unterminated" THEN 1 ELSE 0)
+       + FoldLeft(LAMBDA acc, x : acc + SureCnt(x, F, c), 0, SubSeq(tpl, 1, FirstDrop(tpl) - 1))
+  ELSE FoldLeft(LAMBDA acc, x : acc + SureCnt(x, F, c), 0, tpl)
+ErrLowCntsF(tpl, F) == [c \in ErrClasses |-> ErrLowCntF(tpl, F, c)]
+MutatedF(tpl, F) == DropsIn(tpl) > 0 \/ ErrUpperF(tpl, F) # {}
+
+Mutated(tpl) == MutatedF(tpl, Funcs)
+ErrUpper(tpl) == ErrUpperF(tpl, Funcs)
+ErrLower(tpl) == ErrLowerF(tpl, Funcs)
+ErrLowCnts(tpl) == ErrLowCntsF(tpl, Funcs)
 
 \* ---- the tree a printed template denotes
 RECURSIVE StripN(_)
@@ -246,6 +281,16 @@ StripN(a) ==
     [] a.k = "qt"   -> CatN([j \in 1..Len(a.args) |-> StripN(a.args[j])])
     [] OTHER        -> N(a.k, <<>>, 0, <<>>)
 StripT(tpl) == NormSeq([j \in 1..Len(tpl) |-> StripN(tpl[j])])
+\* ... under a function table: every call is bound to the version registered when the template is compiled
+RECURSIVE StripNF(_, _)
+StripNF(a, ft) ==
+  CASE a.k = "lit"  -> LitN(a.s)
+    [] a.k = "grp"  -> GrpN(a.n)
+    [] a.k = "key"  -> KeyN(a.s)
+    [] a.k = "call" -> CallV(a.s, IF a.s \in DOMAIN ft THEN ft[a.s] ELSE 0, [j \in 1..Len(a.args) |-> StripNF(a.args[j], ft)])
+    [] a.k = "qt"   -> CatN([j \in 1..Len(a.args) |-> StripNF(a.args[j], ft)])
+    [] OTHER        -> N(a.k, <<>>, 0, <<>>)
+StripTF(tpl, ft) == NormSeq([j \in 1..Len(tpl) |-> StripNF(tpl[j], ft)])
 
 \* =================================================================== (b) parse model
 Unescape(c) == IF c = 110 THEN LF ELSE IF c = 114 THEN CR ELSE IF c = 116 THEN TAB ELSE c
@@ -278,39 +323,40 @@ SimpleVarM(s) ==
 
 ErrText(name) == <<60, 69, 114, 114, 58>> \o name \o <<62>>      \* <Err:name>
 
-\* ---- keyBuilder.go Compile
-RECURSIVE CompileM(_)
-RECURSIVE CLoop(_, _, _, _, _, _)
-RECURSIVE StatementM(_)
-StatementM(sb) ==
+\* ---- keyBuilder.go Compile (ft: the key builder's function table at the time of the call)
+RECURSIVE CompileF(_, _)
+RECURSIVE CLoop(_, _, _, _, _, _, _)
+RECURSIVE StatementM(_, _)
+StatementM(sb, ft) ==
   LET args == SplitM(sb) IN
   IF Len(args) = 0 THEN [st |-> <<>>, er |-> <<"empty">>]
   ELSE IF Len(args) = 1 THEN [st |-> <<SimpleVarM(args[1])>>, er |-> <<>>]
-  ELSE IF args[1] \in Funcs THEN
-    LET cs == [j \in 1..(Len(args) - 1) |-> CompileM(args[j + 1])] IN
-    [st |-> <<CallN(args[1], [j \in 1..Len(cs) |-> JoinM(cs[j].st)])>>,
+  ELSE IF args[1] \in DOMAIN ft THEN
+    LET cs == [j \in 1..(Len(args) - 1) |-> CompileF(args[j + 1], ft)] IN
+    [st |-> <<CallV(args[1], ft[args[1]], [j \in 1..Len(cs) |-> JoinM(cs[j].st)])>>,
      er |-> Flatten([j \in 1..Len(cs) |-> cs[j].er])]
   ELSE [st |-> <<LitN(ErrText(args[1]))>>, er |-> <<"unknownFunc">>]
 
 \* r text, i position, depth = inStatement, sb the string builder, st stages, er errors
-CLoop(r, i, depth, sb, st, er) ==
+CLoop(r, i, depth, sb, st, er, ft) ==
   IF i > Len(r) THEN
     [st |-> IF sb # <<>> THEN Append(st, LitN(sb)) ELSE st,
      er |-> IF depth # 0 THEN Append(er, "unterminated") ELSE er]
   ELSE LET c == r[i] IN
     IF c = BSL THEN
-      IF i + 1 <= Len(r) THEN CLoop(r, i + 2, depth, Append(sb, Unescape(r[i + 1])), st, er)
-      ELSE CLoop(r, i + 1, depth, Append(sb, BSL), st, er)     \* lone trailing backslash (outside the domain)
+      IF i + 1 <= Len(r) THEN CLoop(r, i + 2, depth, Append(sb, Unescape(r[i + 1])), st, er, ft)
+      ELSE CLoop(r, i + 1, depth, Append(sb, BSL), st, er, ft)     \* lone trailing backslash (outside the domain)
     ELSE IF c = LBR THEN
       IF depth = 0
-      THEN CLoop(r, i + 1, 1, <<>>, IF sb # <<>> THEN Append(st, LitN(sb)) ELSE st, er)
-      ELSE CLoop(r, i + 1, depth + 1, Append(sb, c), st, er)
+      THEN CLoop(r, i + 1, 1, <<>>, IF sb # <<>> THEN Append(st, LitN(sb)) ELSE st, er, ft)
+      ELSE CLoop(r, i + 1, depth + 1, Append(sb, c), st, er, ft)
     ELSE IF c = RBR /\ depth > 0 THEN
       IF depth = 1
-      THEN LET res == StatementM(sb) IN CLoop(r, i + 1, 0, <<>>, st \o res.st, er \o res.er)
-      ELSE CLoop(r, i + 1, depth - 1, Append(sb, c), st, er)
-    ELSE CLoop(r, i + 1, depth, Append(sb, c), st, er)
-CompileM(r) == CLoop(r, 1, 0, <<>>, <<>>, <<>>)
+      THEN LET res == StatementM(sb, ft) IN CLoop(r, i + 1, 0, <<>>, st \o res.st, er \o res.er, ft)
+      ELSE CLoop(r, i + 1, depth - 1, Append(sb, c), st, er, ft)
+    ELSE CLoop(r, i + 1, depth, Append(sb, c), st, er, ft)
+CompileF(r, ft) == CLoop(r, 1, 0, <<>>, <<>>, <<>>, ft)
+CompileM(r) == CompileF(r, BaseFt)
 
 ParseModel(text) == CompileM(text)
 ErrSet(p) == {p.er[j] : j \in 1..Len(p.er)}
@@ -322,15 +368,24 @@ RECURSIVE HasBig(_)
 HasBig(x) == x.k = "big" \/ \E j \in 1..Len(x.args) : HasBig(x.args[j])
 
 \* =================================================================== laws (checked by ExprSyntax_MC, used by ExprSyntax_Trace)
-\* parsing a printed well-formed tree gives the tree back, without errors
-RoundTripOK(tpl) ==
-  LET p == ParseModel(PrintTpl(tpl)) IN
+\* parsing a printed well-formed tree gives the tree back, without errors (under any function table ft;
+\* calls are bound to the versions registered in ft)
+\* (the ...P forms take the parse result p, so that a caller can share it)
+RoundTripP(tpl, ft, p) ==
   /\ p.er = <<>>
-  /\ NormSeq(p.st) = StripT(tpl)
-  /\ Spell(p.st) = Spell(StripT(tpl))
-\* a malformed template yields its documented classes
-ErrClassOK(tpl) ==
-  LET got == ErrSet(ParseModel(PrintTpl(tpl))) IN ErrLower(tpl) \subseteq got /\ got \subseteq ErrUpper(tpl)
+  /\ NormSeq(p.st) = StripTF(tpl, ft)
+  /\ Spell(p.st) = Spell(StripTF(tpl, ft))
+RoundTripOKF(tpl, ft) == RoundTripP(tpl, ft, CompileF(PrintTpl(tpl), ft))
+RoundTripOK(tpl) == RoundTripOKF(tpl, BaseFt) /\ StripTF(tpl, BaseFt) = StripT(tpl)
+\* a malformed template yields its documented classes, every malformed statement an error of its own
+CountOf(er, c) == Cardinality({j \in 1..Len(er) : er[j] = c})
+ErrClassP(tpl, ft, p) ==
+  LET F == DOMAIN ft
+      got == ErrSet(p) IN
+  /\ ErrLowerF(tpl, F) \subseteq got /\ got \subseteq ErrUpperF(tpl, F)
+  /\ \A c \in ErrClasses : CountOf(p.er, c) >= ErrLowCntF(tpl, F, c)
+ErrClassOKF(tpl, ft) == ErrClassP(tpl, ft, CompileF(PrintTpl(tpl), ft))
+ErrClassOK(tpl) == ErrClassOKF(tpl, BaseFt)
 \* the escaped rendering of s evaluates to s
 EscapeOK(s, esc) ==
   LET p == ParseModel(EscapeP(s, esc)) IN
